@@ -22,7 +22,7 @@ NS = ('xmlns:office="urn:oasis:names:tc:opendocument:xmlns:office:1.0" '
 MIMES = {"odf": "application/vnd.oasis.opendocument.formula", "odt": "application/vnd.oasis.opendocument.text", "ods": "application/vnd.oasis.opendocument.spreadsheet",
          "odp": "application/vnd.oasis.opendocument.presentation", "odg": "application/vnd.oasis.opendocument.graphics"}
 
-ODT_SUPPORTS = {"p", "h", "ul", "ul.nested", "tbl", "tbl.nested", "cell.multi", "tbx", "r", "tab", "br", "a",
+ODT_SUPPORTS = {"r.acc", "r.num", "p", "h", "ul", "ul.nested", "tbl", "tbl.nested", "cell.multi", "tbx", "r", "tab", "br", "a",
                 "ins", "del", "fn", "cm", "header", "footer"}
 
 
@@ -69,6 +69,15 @@ def _inl(inls, c: _C) -> str:
     return "".join(out)
 
 
+_SPAN = ' table:number-columns-spanned="2"'
+
+
+def _covered(row, j) -> bool:
+    """An empty cell right of a non-empty one is written as the covered cell of a horizontal merge: ODF keeps the
+    full grid (origin table:number-columns-spanned="2", covered position <table:covered-table-cell/>)."""
+    return 0 < j < len(row) and not row[j] and bool(row[j - 1])
+
+
 def _blocks(blocks, c: _C) -> str:
     out = []
     for b in blocks:
@@ -82,9 +91,16 @@ def _blocks(blocks, c: _C) -> str:
                        + "</text:list>")
         elif t == "tbl":
             ncols = max(len(r) for r in b[1])
-            rowx = ["<table:table-row>" + "".join(
-                f'<table:table-cell office:value-type="string">{_blocks(cell, c) or "<text:p/>"}</table:table-cell>'
-                for cell in row) + "</table:table-row>" for row in b[1]]
+            rowx = []
+            for row in b[1]:
+                cells = ""
+                for j, cell in enumerate(row):
+                    if _covered(row, j):
+                        cells += "<table:covered-table-cell/>"
+                    else:
+                        cells += (f'<table:table-cell{_SPAN if _covered(row, j + 1) else ""} office:value-type="string">'
+                                  f'{_blocks(cell, c) or "<text:p/>"}</table:table-cell>')
+                rowx.append(f"<table:table-row>{cells}</table:table-row>")
             # the first row of every other table is a repeated header row (table:table-header-rows wrapper)
             c.n += 1
             if c.n % 2 == 0:
@@ -207,9 +223,14 @@ def write_ods(book: dict) -> bytes:
                 rep = f' table:number-rows-repeated="{row["repeat"]}"'
                 row = row["cells"]
             cells = ""
-            for c in row:
+            plain = all(not isinstance(c, dict) for c in row)
+            for j, c in enumerate(row):
                 if isinstance(c, dict):        # {"repeat": n, "cell": c}
                     cells += _ods_cell(c["cell"], c["repeat"])
+                elif plain and _covered(row, j):
+                    cells += "<table:covered-table-cell/>"
+                elif plain and _covered(row, j + 1):
+                    cells += _ods_cell(c).replace("<table:table-cell", "<table:table-cell" + _SPAN, 1)
                 else:
                     cells += _ods_cell(c)
             rows += f"<table:table-row{rep}>{cells}</table:table-row>"
@@ -228,8 +249,10 @@ def _odp_shape(k, s, c):
     y = f'svg:x="1cm" svg:y="{k + 1}cm" svg:width="20cm" svg:height="0.9cm"'
     if kind == "tbl":
         rows = "".join("<table:table-row>" + "".join(
-            "<table:table-cell>" + ("".join(f"<text:p>{_inl(p, c)}</text:p>" for p in cell) or "<text:p/>")
-            + "</table:table-cell>" for cell in row) + "</table:table-row>" for row in s[1])
+            "<table:covered-table-cell/>" if _covered(row, j) else
+            f"<table:table-cell{_SPAN if _covered(row, j + 1) else ''}>"
+            + ("".join(f"<text:p>{_inl(p, c)}</text:p>" for p in cell) or "<text:p/>")
+            + "</table:table-cell>" for j, cell in enumerate(row)) + "</table:table-row>" for row in s[1])
         ncols = max(len(r) for r in s[1])
         return (f'<draw:frame {y}><table:table><table:table-column table:number-columns-repeated="{ncols}"/>{rows}'
                 "</table:table></draw:frame>")
